@@ -342,3 +342,105 @@ class ValidateSortingTwoLevels(Contract):
 UNITS.append(ValidateSortingTwoLevels())
 from pyvc.units import LemmaUnit
 LEMMAS = [LemmaUnit("contiguity", contiguity_lemma)]
+
+
+# ---- GroupingService.enhance_group_by: the dispatcher between the contracts above ---------------------------------------------------
+from pyvc.values import ClassVal
+from pyvc.state import SymRaise
+
+SORT_OK = z3.Bool("group_keys_are_contiguous")          # ValidateSorting*'s verdict for (df, group_by)
+
+
+class EnhanceGroupBy(Contract):
+    """enhance_group_by(df, group_by): without keys (or without rows) the frame itself; otherwise - after every key was found among the
+    columns and validate_data_sorting(df, group_by=group_by) accepted the order - the result of the suppressor for that many keys applied to
+    a value-equal copy of df with exactly these keys (one key: _suppress_single_column(copy, group_by[0]); more: _suppress_hierarchical_columns
+    (copy, group_by)).  ValueError only for a key that is no column or for keys that are not contiguous (C13: true repeats only)."""
+    target = "services/grouping_service.py::GroupingService.enhance_group_by"
+    serves = ["C13"]
+    models = [PolarsModel(), StrModel()]
+    variants = ["no_keys", "empty_key_list", "one_key", "two_keys", "three_keys"]
+
+    def setup(self, c):
+        c.bind("self", _svc(c))
+        df = fresh_df(c.st, "df")
+        c.bind("df", df)
+        n = {"no_keys": None, "empty_key_list": 0, "one_key": 1, "two_keys": 2, "three_keys": 3}[c.variant]
+        keys = [c.fresh(f"key{j}", T.Str) for j in range(n or 0)]
+        gb = None if n is None else c.alloc(ListObj(items=list(keys), fresh=False))
+        c.bind("group_by", gb)
+        c.v.update(df=df, d=c.obj(df), gb=gb, keys=keys, n=n)
+        c.ghost("trace", ())
+
+    def _is_df(self, st, x, vv):
+        return isinstance(x, Ref) and x.oid == vv["df"].oid          # clone() is value-equal (PolarsModel): the copy is the same frame value
+
+    @property
+    def summaries(self):
+        def validate(I, st, args, kwargs, node):
+            vv = self._v
+            site = getattr(node, "lineno", None)
+            gb = kwargs.get("group_by", args[2] if len(args) > 2 else None)
+            I.oblige(st, f"C13.order_of_this_frame_is_validated_for_exactly_these_keys@L{site}",
+                     z3.BoolVal(self._is_df(st, args[1], vv) and isinstance(gb, Ref) and gb.oid == vv["gb"].oid
+                                and kwargs.get("page_by") is None and kwargs.get("subline_by") is None and len(args) <= 3), "post", site)
+            st.ghost["trace"] = tuple(st.ghost.get("trace", ())) + ("validated",)
+            if not I.decide(st, SORT_OK, "keys.contiguous"):
+                raise SymRaise(ClassVal("ValueError", ValueError), st, "data is not sorted by the group_by keys", site)
+            return None
+
+        def single(I, st, args, kwargs, node):
+            vv = self._v
+            site = getattr(node, "lineno", None)
+            col = args[2]
+            I.oblige(st, f"C13.single_key_suppression_runs_on_a_copy_of_the_frame_with_the_only_key@L{site}",
+                     And(z3.BoolVal(self._is_df(st, args[1], vv) and vv["n"] == 1), to_z3(norm_str(col)) == to_z3(vv["keys"][0]) if vv["keys"] else z3.BoolVal(False)), "post", site)
+            I.oblige(st, f"C13.suppression_only_after_the_order_was_validated@L{site}", z3.BoolVal(st.ghost.get("trace", ()) == ("validated",)), "post", site)
+            res = fresh_df(st, "suppressed")
+            st.ghost["trace"] = tuple(st.ghost.get("trace", ())) + (("single", res.oid),)
+            return res
+
+        def hier(I, st, args, kwargs, node):
+            vv = self._v
+            site = getattr(node, "lineno", None)
+            gb = args[2]
+            I.oblige(st, f"C13.hierarchical_suppression_runs_on_a_copy_of_the_frame_with_all_the_keys@L{site}",
+                     z3.BoolVal(self._is_df(st, args[1], vv) and (vv["n"] or 0) >= 2 and isinstance(gb, Ref) and gb.oid == vv["gb"].oid), "post", site)
+            I.oblige(st, f"C13.suppression_only_after_the_order_was_validated@L{site}", z3.BoolVal(st.ghost.get("trace", ()) == ("validated",)), "post", site)
+            res = fresh_df(st, "suppressed")
+            st.ghost["trace"] = tuple(st.ghost.get("trace", ())) + (("hier", res.oid),)
+            return res
+        return {"GroupingService.validate_data_sorting": validate, "GroupingService._suppress_single_column": single,
+                "GroupingService._suppress_hierarchical_columns": hier}
+
+    def _all_keys_are_columns(self, c):
+        d = c.v["d"]
+        j = z3.Int("j")
+        return And(*[Exists([j], And(0 <= j, j < d.w, d.colname(j) == to_z3(k))) for k in c.v["keys"]]) if c.v["keys"] else z3.BoolVal(True)
+
+    @property
+    def raises(self):
+        def r(c, out):
+            if not c.v["keys"]:
+                return {"never_without_keys": z3.BoolVal(False)}
+            return {"only_for_a_key_that_is_no_column_or_keys_that_are_not_contiguous": And(c.v["d"].n > 0, Or(Not(self._all_keys_are_columns(c)), Not(SORT_OK)))}
+        return {"ValueError": r}
+
+    def setup_loops(self, c):
+        self._v = c.v
+        self.loops = {}
+
+    def ensures(self, c, out):
+        v = c.v
+        tr = tuple(out.state.ghost.get("trace", ()))
+        same = isinstance(out.value, Ref) and out.value.oid == v["df"].oid
+        if not v["keys"]:
+            return {"C13.without_keys_the_frame_is_returned_as_it_is": z3.BoolVal(same and tr == ())}
+        kind = "single" if v["n"] == 1 else "hier"
+        suppressed = len(tr) == 2 and tr[0] == "validated" and isinstance(tr[1], tuple) and tr[1][0] == kind and isinstance(out.value, Ref) and out.value.oid == tr[1][1]
+        untouched = same and tr == ()
+        return {"C13.result_is_the_suppressors_output_for_these_keys_or_the_empty_frame_itself": Or(And(v["d"].n == 0, z3.BoolVal(untouched)), And(v["d"].n > 0, z3.BoolVal(suppressed))),
+                "C13.accepted_only_with_known_contiguous_keys": Implies(v["d"].n > 0, And(self._all_keys_are_columns(c), SORT_OK))}
+
+
+UNITS.append(EnhanceGroupBy())
